@@ -19,6 +19,7 @@ func init() {
 
 func c05(r *core.Run) {
 	w := r.W
+	socFreshSerialisation(r, "C05.W2")
 	const S = "pkg/soc.SOC"
 	sign := w.Func("pkg/soc", "(*SOC).Sign")
 	from := w.Func("pkg/soc", "FromChunk")
@@ -255,6 +256,7 @@ func c05(r *core.Run) {
 			"the recovered owner is accepted only with the address length", "the owner is stored without the length check")
 	}
 	c05Recover(r)
+	c05LowS(r)
 	keyAddressRules(r, "C05.P2", "NewEthereumAddress")
 }
 
